@@ -44,7 +44,8 @@ pub fn profile_for(prop: &str) -> Profile {
         max_len: 400,
     };
     match prop {
-        "C01" => Profile { w: [30, 25, 6, 8, 10, 3, 6, 25, 0, 0, 0, 0], ..base },
+        // (a crash-restart through JSON is a fault, not an operation: the reloaded book must go on matching by the same rules)
+        "C01" => Profile { w: [30, 25, 6, 8, 10, 3, 6, 25, 0, 0, 2, 0], ..base },
         "C02" => Profile {
             property: "C02",
             monitors: RECOMPUTE | MID,
@@ -71,7 +72,7 @@ pub fn profile_for(prop: &str) -> Profile {
             property: "C04",
             monitors: LIFECYCLE | NOOP,
             discipline: false,
-            w: [24, 20, 8, 12, 12, 10, 30, 18, 5, 1, 0, 0],
+            w: [24, 20, 8, 12, 12, 10, 30, 18, 5, 1, 3, 0],
             modify_only_via_event: false,
             drain: false,
             start_halted: 0.15,
@@ -115,7 +116,7 @@ pub fn profile_for(prop: &str) -> Profile {
             property: "C12",
             monitors: GRID | RECOMPUTE,
             market_share: 0.35,
-            w: [26, 18, 6, 6, 8, 12, 3, 20, 3, 1, 0, 22],
+            w: [26, 18, 6, 6, 8, 12, 8, 20, 3, 1, 2, 22],
             modify_only_via_event: false,
             drain: false,
             offgrid_modify_last: 0.3,
@@ -125,7 +126,7 @@ pub fn profile_for(prop: &str) -> Profile {
             property: "C13",
             monitors: MODEL | HALT,
             market_share: 0.3,
-            w: [28, 26, 5, 6, 8, 14, 4, 22, 14, 1, 0, 0],
+            w: [28, 26, 5, 6, 8, 14, 4, 22, 14, 1, 2, 0],
             modify_only_via_event: false,
             drain: true,
             start_halted: 0.4,
@@ -136,7 +137,7 @@ pub fn profile_for(prop: &str) -> Profile {
             monitors: SHADOW,
             market_share: 1.0,
             force_market: true,
-            w: [30, 24, 6, 8, 10, 12, 5, 22, 5, 3, 0, 0],
+            w: [30, 24, 6, 8, 10, 12, 5, 22, 5, 3, 2, 0],
             modify_only_via_event: false,
             drain: true,
             start_halted: 0.1,
@@ -371,10 +372,24 @@ impl<'a> Gen<'a> {
             5 => Some(cur.vol.max(1)),
             _ => Some(cur.vol.saturating_add(gen_vol(self.r, self.vol_kind.min(2))).max(1)),
         };
+        // C12: re-price requests off the tick grid, at any point of a history and against orders in any status
+        // (an off-grid price is not a valid price: the request must be ignored, the order keeps its price)
+        let mut price = price;
+        let tick = self.ex.cfg.ticks[a];
+        if self.ex.cfg.allow_offgrid_modify && tick > 1 && self.r.chance(0.3) {
+            let base = price.unwrap_or(cur.price);
+            if base != 0 && base != PMAX {
+                price = Some((base / tick * tick).saturating_add(1 + self.r.below(tick as u64 - 1) as u32).min(PMAX - 1));
+            }
+        }
         if self.p.modify_only_via_event || self.r.chance(0.35) {
             self.push(Op::Event { a, kind: EvKind::Modify, ord, price, vol });
         } else {
             self.push(Op::Modify { a, ord, price, vol });
+        }
+        // a modification addressed to an order that is still unplaced must not survive into its placement
+        if cur.status == NEW && self.r.chance(0.5) {
+            self.push(Op::Place { a, ord });
         }
     }
 
@@ -522,8 +537,18 @@ pub fn generate(prop: &str, seed: u64) -> W1Scn {
             6 => g.duplicate(),
             7 => g.tick(),
             8 => {
-                let on = !g.ex.trading;
-                g.push(Op::Trading { on })
+                // market-wide switch, or (markets) the switch of one asset's book; a quarter of the requests are redundant
+                // (disable while disabled, enable while enabled): the switch is a flag, not a counter
+                if g.ex.cfg.market && g.r.chance(0.3) {
+                    let a = g.pick_asset();
+                    let cur = g.ex.trading_a[a];
+                    let on = if g.r.chance(0.25) { cur } else { !cur };
+                    g.push(Op::TradingAsset { a, on })
+                } else {
+                    let cur = g.ex.trading;
+                    let on = if g.r.chance(0.25) { cur } else { !cur };
+                    g.push(Op::Trading { on })
+                }
             }
             9 => g.push(Op::ResetTradeVol),
             10 => g.snapshot(),
